@@ -12,5 +12,6 @@ import BddVerif.Props.C11
 #print axioms B.Props.C11.random_valuation_sat
 #print axioms B.Props.C11.random_clause_path
 #print axioms B.Props.C11.necessary_clause_sound
+#print axioms B.Props.C11.necessary_clause_exact
 #print axioms B.Props.C11.is_clause_spec
 #print axioms B.Props.C11.is_valuation_spec
